@@ -72,6 +72,23 @@ impl<'a> ReceivedPacket<'a> {
             }
         }
 
+        // A packet identifier of zero is never valid [MQTT-2.2.1-3]; echoing it in an
+        // acknowledgement would put a malformed packet on the wire.
+        let packet_id = match &packet {
+            ReceivedPacket::Publish(publish) => publish.packet_id,
+            ReceivedPacket::PubAck(ack) => Some(ack.packet_id),
+            ReceivedPacket::SubAck(ack) => Some(ack.packet_id),
+            ReceivedPacket::UnsubAck(ack) => Some(ack.packet_id),
+            ReceivedPacket::PubRel(rel) => Some(rel.packet_id),
+            ReceivedPacket::PubRec(rec) => Some(rec.packet_id),
+            ReceivedPacket::PubComp(comp) => Some(comp.packet_id),
+            _ => None,
+        };
+        if packet_id == Some(0) {
+            warn!("Rejecting {=str} with a zero packet identifier", packet.kind());
+            return Err(ProtocolError::MalformedPacket);
+        }
+
         trace!("Parsed inbound packet kind={=str}", packet.kind());
         Ok(packet)
     }
